@@ -19,7 +19,7 @@ CFG = dict(
     rule="inputs = (profile as held by the report after aggregation, options {sample index, mean divisor, type, unit, trim path, ratio}, "
          "oracle tables); generators: seeded random profiles biased to few names/files (collisions), recursion (repeated locations), "
          "self-inlining, lines differing only in line/column, nil functions, empty stacks, locations without lines, diff-base labels, "
-         "extreme int64 values x 6 granularities x noinlines/showcolumns; the same through the web handler with URL parameters "
+         "extreme int64 values x 6 granularities x noinlines/showcolumns; a third of them with shared backing arrays (same / overlapping / adjacent Location slices, shared Line and Value arrays); call sequences (\"seq\" cases: Stacks() 2-5 times on one report or on several reports sharing the profile, every returned stack set judged against the original profile, profile dumped again afterwards); web sessions (2-4 /flamegraph requests through one webInterface, incl. a refused request in between); the same through the web handler with URL parameters "
          "(incl. profiles without samples / with only empty stacks); hand-made corner profiles; exhaustive small scope (all pairs of "
          "stacks of depth <= 2 (quick: 1/3 of them) or <= 3 (thorough) over 4 locations x 3 granularities); distinct = sha256 of the "
          "input term; non-trivial = at least one sample has a frame",
@@ -29,7 +29,8 @@ CFG = dict(
                   "export shims internal/report/zz_verif_c17.go, internal/driver/zz_verif_c17.go (add-only; the driver shim calls the real "
                   "stackView handler and re-runs generateRawReport with the same configuration to hand the model the profile/options)",
                   "Scale compared within 2^-40 relative (float64 vs exact rational); unit table regenerated from /repo (gen-unittable)"],
-    assumptions=["profile pointers are modelled as ids: locations/functions referenced by samples/lines exist and ids are unique (profile.CheckValid)",
+    assumptions=["call sequences: the reports share one profile and only Stacks() is called between the two profile dumps",
+                 "profile pointers are modelled as ids: locations/functions referenced by samples/lines exist and ids are unique (profile.CheckValid)",
                  "SourcePath is empty (trimPath's search-path heuristic is not modelled); TrimPath is modelled",
                  "StackSource.Color is not part of the observable"],
 )
